@@ -19,6 +19,7 @@
                      counter per machine per call (the flags are per machine). *)
 From MB Require Import Model.Framework.
 From MB Require Import Proofs.FrameworkInv Proofs.Limits Proofs.Counters.
+From MB Require Proofs.FrameworkCorollaries.
 Open Scope N_scope.
 
 Theorem C08_update : forall trans c tp s mi s' al ch r m st,
@@ -66,3 +67,12 @@ Example C08_copy_uses_old_value :
   ctr_zeroed (Some (mkcounter Decrement None false)) 1 0 true = false /\
   ctr_zeroed (Some (mkcounter Decrement None false)) 0 0 false = false.
 Proof. repeat split. Qed.
+
+(** every call of every history from [fnew] (the log [flog] is the log of that call alone) *)
+Theorem C08_once_history : forall c tp t0 s0 h s outs k evs t,
+  fnew c tp t0 = Ok s0 -> run c tp s0 h = Ok (s, outs) -> nth_error h k = Some (evs, t) ->
+  exists sb sa acts, run c tp s0 (firstn k h) = Ok (sb, firstn k outs) /\
+    trigger_events c tp sb evs t = Ok (sa, acts) /\ nth_error outs k = Some acts /\
+    forall i, czeros i (flog sa) + zc sa i <= 2.
+Proof. exact FrameworkCorollaries.czero_every_call_nth. Qed.
+Print Assumptions C08_once_history.
